@@ -16,10 +16,9 @@ PROP = 'C14'
 LEVEL = 'proof'
 PROPS_MODULES = ['RTV.Props.C14']
 GEN = ['timexregex']
-REQUIRED_THEOREMS_FINAL = ['genCfg_ok', 'parse_format_fields', 'format_idempotent', 'canonical_fixed',
-                     'from_date_canonical', 'from_date_time_canonical', 'from_time_canonical',
-                     'week_of_month_not_stable', 'zero_amount_formats_empty']
-REQUIRED_THEOREMS = ['genCfg_ok']
+REQUIRED_THEOREMS = ['genCfg_ok', 'parse_format_fields', 'format_idempotent', 'canonical_fixed', 'tree_roundtrip',
+                     'from_date_canonical', 'from_date_time_canonical', 'from_time_canonical', 'format_parse',
+                     'duration_int_format', 'duration_examples', 'repaired_roundtrips', 'tiny_amount_not_stable']
 RULE = ('every TimexRegex pattern x boundary years (0001/0999/1000/1999/2000/9999 + seeded) x all months / boundary '
         'days / weeks 00-54 / weekdays 0-9 / hours 00-25 / minutes, seconds 00,01,30,59,60; durations with integer '
         'and fractional amounts (0, .5, 1.50, 0010, 1E-7 form); date x time and date x part-of-day combinations; '
